@@ -19,7 +19,8 @@ Record zone := { z_name : list Z; z_start : Z; z_end : Z; z_cur : Z }.
 
 (* MemoryZone.__init__ *)
 Definition mk_zone (address_bits : Z) (start end_ : Z) (name : list Z) : result zone :=
-  if end_ >? 2 ^ address_bits - 1 then Rejected
+  if start <? 0 then Rejected                              (* below the address space (D46) *)
+  else if end_ >? 2 ^ address_bits - 1 then Rejected
   else if start >? end_ then Rejected
   else Ok {| z_name := name; z_start := start; z_end := end_; z_cur := start |}.
 
